@@ -136,6 +136,10 @@ class PrintMonitor(Monitor):
             )
             ctx.distinct(h)
             return
+        if irutil.validate(ir):
+            # an ill-scoped procedure is C04's finding, not a printer matter
+            ctx.stat("roundtrip.ill_scoped_ir")
+            return
         mt = module_text_for(ir, self.cfg_src)
         if mt is None:
             ctx.stat("roundtrip.not_expressible")
